@@ -194,11 +194,16 @@ pub fn init_twins(es: &[Entry]) {
             let mut r = Registry::new();
             let id = r.register_type(&(e.meta)()).id;
             let reg: PortableRegistry = r.into();
-            let mut t = reg.resolve(id).cloned().unwrap();
-            for x in reggen::refs_mut(&mut t) {
-                *x = 0;
+            // (a broken tree may not even resolve the id it just handed out: such entries simply have no twins)
+            match reg.resolve(id).cloned() {
+                Some(mut t) => {
+                    for x in reggen::refs_mut(&mut t) {
+                        *x = 0;
+                    }
+                    key.push((type_hash(&t), (e.did)()));
+                }
+                None => key.push((key.len() as u64 ^ 0xdead_0000_0000, (e.did)())),
             }
-            key.push((type_hash(&t), (e.did)()));
         }
         let mut by: HashMap<u64, Vec<usize>> = HashMap::new();
         for (i, (h, _)) in key.iter().enumerate() {
@@ -629,6 +634,27 @@ pub fn run(a: &Args) -> Report {
                     return;
                 }
                 rep.count("entry_count_checks", 1);
+                // the same must hold for the registry a user ends up with (the frozen form)
+                match guard(|| PortableRegistry::from(ex.registry)) {
+                    Ok(frozen) => {
+                        if frozen.types.len() != want.len() {
+                            rep.violation("C05/entry-count", format!("the frozen registry has {} entries but {} distinct type identities are reachable from what was registered", frozen.types.len(), want.len()), case());
+                            return;
+                        }
+                        for (j, id) in &id_of {
+                            let then = last.iter().find(|(i, _)| i == id).map(|(_, t)| t);
+                            if frozen.resolve(*id) != then || then.is_none() {
+                                rep.violation("C05/frozen-id-resolves-differently", format!("id {} of `{}` resolves to a different entry (or none) in the frozen registry", id, es[*j].text), case());
+                                return;
+                            }
+                        }
+                        rep.count("frozen_registries_checked", 1);
+                    }
+                    Err(p) => {
+                        rep.violation("C05/registration-panic", format!("freezing the registry panicked: {}", p), case());
+                        return;
+                    }
+                }
                 // (d) at most one evaluation per instrumented type. The oracle's own walks happen after this read.
                 for (name, n) in &evals {
                     rep.count("instrumented_evaluations_seen", 1);
